@@ -143,7 +143,8 @@ def gen(rng, tier, index):
     n = rng.randrange(1, 8)
     src = rng.choice(['list', 'dict'])
     base = {'n': n, 'source': src, 'fresh': rng.random() < 0.7,
-            'keep': rng.choice(['5 GB', '50%', '2GiB', None]),
+            'keep': rng.choice(['5 GB', '50%', '2GiB', None, '4096 MiB', 3 * GiB, ' 25 % ',
+                                '6442450944']),
             'tuple': rng.random() < 0.2}
     if not base['fresh'] and not base['tuple'] and rng.random() < 0.4:
         base['nonevals'] = True
@@ -164,13 +165,18 @@ def gen(rng, tier, index):
     return cases
 
 
+# the limit in its legal spellings and what each means (written down by hand,
+# not computed with the parser the library uses)
+KEEP_SPELLINGS = {'5 GB': 5 * GiB, '2GiB': 2 * GiB, '4096 MiB': 4 * GiB, 3 * GiB: 3 * GiB,
+                  '6442450944': 6 * GiB}
+
+
 def threshold(keep):
     if keep is None:
         return 8 * GiB
-    if keep.endswith('%'):
+    if isinstance(keep, str) and keep.strip().endswith('%'):
         return Mem.total * float(keep.strip(' %')) / 100
-    import humanfriendly
-    return humanfriendly.parse_size(keep, binary=True)
+    return KEEP_SPELLINGS[keep]
 
 
 def _mutate(v):
